@@ -142,7 +142,7 @@ func StrictIntLogicalRightBitshift[T StrictInt](left T, right Value, shiftFunc l
 		switch r := right.AsReference().(type) {
 		case Int64:
 			if r < 0 {
-				return left << -r, Undefined
+				return left << uint64(-int64(r)), Undefined
 			}
 			return shiftFunc(left, uint64(r)), Undefined
 		case UInt64:
@@ -166,31 +166,31 @@ func StrictIntLogicalRightBitshift[T StrictInt](left T, right Value, shiftFunc l
 	case SMALL_INT_FLAG:
 		r := right.AsSmallInt()
 		if r < 0 {
-			return left << -r, Undefined
+			return left << uint64(-int64(r)), Undefined
 		}
 		return shiftFunc(left, uint64(r)), Undefined
 	case INT64_FLAG:
 		r := right.AsInlineInt64()
 		if r < 0 {
-			return left << -r, Undefined
+			return left << uint64(-int64(r)), Undefined
 		}
 		return shiftFunc(left, uint64(r)), Undefined
 	case INT32_FLAG:
 		r := right.AsInt32()
 		if r < 0 {
-			return left << -r, Undefined
+			return left << uint64(-int64(r)), Undefined
 		}
 		return shiftFunc(left, uint64(r)), Undefined
 	case INT16_FLAG:
 		r := right.AsInt16()
 		if r < 0 {
-			return left << -r, Undefined
+			return left << uint64(-int64(r)), Undefined
 		}
 		return shiftFunc(left, uint64(r)), Undefined
 	case INT8_FLAG:
 		r := right.AsInt8()
 		if r < 0 {
-			return left << -r, Undefined
+			return left << uint64(-int64(r)), Undefined
 		}
 		return shiftFunc(left, uint64(r)), Undefined
 	case UINT_FLAG:
@@ -219,7 +219,7 @@ func StrictIntRightBitshift[T StrictInt](left T, right Value) (T, Value) {
 		switch r := right.AsReference().(type) {
 		case Int64:
 			if r < 0 {
-				return left << -r, Undefined
+				return left << uint64(-int64(r)), Undefined
 			}
 			return left >> r, Undefined
 		case UInt64:
@@ -243,31 +243,31 @@ func StrictIntRightBitshift[T StrictInt](left T, right Value) (T, Value) {
 	case SMALL_INT_FLAG:
 		r := right.AsSmallInt()
 		if r < 0 {
-			return left << -r, Undefined
+			return left << uint64(-int64(r)), Undefined
 		}
 		return left >> r, Undefined
 	case INT64_FLAG:
 		r := right.AsInlineInt64()
 		if r < 0 {
-			return left << -r, Undefined
+			return left << uint64(-int64(r)), Undefined
 		}
 		return left >> r, Undefined
 	case INT32_FLAG:
 		r := right.AsInt32()
 		if r < 0 {
-			return left << -r, Undefined
+			return left << uint64(-int64(r)), Undefined
 		}
 		return left >> r, Undefined
 	case INT16_FLAG:
 		r := right.AsInt16()
 		if r < 0 {
-			return left << -r, Undefined
+			return left << uint64(-int64(r)), Undefined
 		}
 		return left >> r, Undefined
 	case INT8_FLAG:
 		r := right.AsInt8()
 		if r < 0 {
-			return left << -r, Undefined
+			return left << uint64(-int64(r)), Undefined
 		}
 		return left >> r, Undefined
 	case UINT_FLAG:
@@ -296,7 +296,7 @@ func StrictIntLeftBitshift[T StrictInt](left T, right Value) (T, Value) {
 		switch r := right.AsReference().(type) {
 		case Int64:
 			if r < 0 {
-				return left >> -r, Undefined
+				return left >> uint64(-int64(r)), Undefined
 			}
 			return left << r, Undefined
 		case UInt64:
@@ -320,31 +320,31 @@ func StrictIntLeftBitshift[T StrictInt](left T, right Value) (T, Value) {
 	case SMALL_INT_FLAG:
 		r := right.AsSmallInt()
 		if r < 0 {
-			return left >> -r, Undefined
+			return left >> uint64(-int64(r)), Undefined
 		}
 		return left << r, Undefined
 	case INT64_FLAG:
 		r := right.AsInlineInt64()
 		if r < 0 {
-			return left >> -r, Undefined
+			return left >> uint64(-int64(r)), Undefined
 		}
 		return left << r, Undefined
 	case INT32_FLAG:
 		r := right.AsInt32()
 		if r < 0 {
-			return left >> -r, Undefined
+			return left >> uint64(-int64(r)), Undefined
 		}
 		return left << r, Undefined
 	case INT16_FLAG:
 		r := right.AsInt16()
 		if r < 0 {
-			return left >> -r, Undefined
+			return left >> uint64(-int64(r)), Undefined
 		}
 		return left << r, Undefined
 	case INT8_FLAG:
 		r := right.AsInt8()
 		if r < 0 {
-			return left >> -r, Undefined
+			return left >> uint64(-int64(r)), Undefined
 		}
 		return left << r, Undefined
 	case UINT_FLAG:
